@@ -26,7 +26,7 @@ NAMES_OK = ('run', 'with space', 'ünï', '-dash', 'dot.ted', 'x' * 120,
             'solver.debug', 'solver.release', 'case 1', 'case_1', 'Upper',
             'run ', 'run.log', 'stdout.log',
             # long, but a legal file name (255 bytes is the usual limit)
-            'y' * 230)
+            'y' * 230, '.hidden', '...')
 NAMES_BAD = ('sl/ash', 'nul\0char', '.', '..', '/abs', '')
 CODE_KINDS = ('checkout', 'build')
 _STATE = {}
